@@ -23,8 +23,10 @@ import (
 //     (bc.apk.FixateWorld, bc.postBuildSetApk, bc.o.TempDir ...), named with the
 //     receiver spelled "bc";
 //   - a call of a plain package-level function with an argument that mentions
-//     the receiver (mutateAccounts(bc.fs, &bc.ic), splitLayers(ctx, bc.fs, ...),
-//     groupByOriginAndSize(pkgs, bc.ic.Layering.Budget), writeTar(ctx, lw.w, bc.fs)).
+//     the receiver, or a local assigned (transitively) from an expression that
+//     does (mutateAccounts(bc.fs, &bc.ic), splitLayers(ctx, bc.fs, groups, ...),
+//     groupByOriginAndSize(pkgs, bc.ic.Layering.Budget), writeTar(ctx, lw.w, bc.fs),
+//     newLayerWriter(outfile)).
 //
 // `if x := e; cond` puts its body under (cond with x replaced by e, true) and its
 // else branch under (…, false); a body guarded by `<err> != nil` is the error
@@ -109,6 +111,43 @@ func genC10() {
 			})
 			return found
 		}
+		// locals that carry something of the receiver: assigned from an expression that mentions the
+		// receiver or another such local (pkgs, err := bc.buildImage(ctx); budget := bc.ic.Layering.Budget;
+		// groups, err := groupByOriginAndSize(pkgs, budget)); error variables and blanks excepted
+		tainted := map[string]bool{}
+		mentionsTainted := func(e ast.Expr) bool {
+			found := false
+			ast.Inspect(e, func(n ast.Node) bool {
+				if id, ok := n.(*ast.Ident); ok && (id.Name == recv || tainted[id.Name]) {
+					found = true
+				}
+				return !found
+			})
+			return found
+		}
+		for changed := true; changed; {
+			changed = false
+			ast.Inspect(fd.Body, func(n ast.Node) bool {
+				as, ok := n.(*ast.AssignStmt)
+				if !ok {
+					return true
+				}
+				any := false
+				for _, r := range as.Rhs {
+					any = any || mentionsTainted(r)
+				}
+				if !any {
+					return true
+				}
+				for _, l := range as.Lhs {
+					if id, ok := l.(*ast.Ident); ok && id.Name != "_" && !strings.Contains(strings.ToLower(id.Name), "err") && !tainted[id.Name] {
+						tainted[id.Name] = true
+						changed = true
+					}
+				}
+				return true
+			})
+		}
 		// name of a relevant call, "" if the call is not relevant
 		callName := func(c *ast.CallExpr) string {
 			switch fun := c.Fun.(type) {
@@ -121,7 +160,7 @@ func genC10() {
 					return ""
 				}
 				for _, a := range c.Args {
-					if mentionsRecv(a) {
+					if mentionsTainted(a) {
 						return fun.Name
 					}
 				}
